@@ -158,6 +158,9 @@ impl<'a, BE: DecryptFullBackend, I: ReadGlobalIndex> TreeModifier<'a, BE, I> {
         }
 
         let new_id = if changed {
+            // a visitor may rename nodes (repair appends a suffix to damaged files): keep the tree sorted
+            // by name, as every tree is and as merging and restoring rely on (stable; a no-op otherwise)
+            new_tree.nodes.sort_by(|n1, n2| n1.name().cmp(&n2.name()));
             let new_id = self.save_tree(&new_tree)?;
             (new_id != id).then_some(new_id)
         } else {
